@@ -95,7 +95,7 @@ theorem writePreDec'_at {ar : Exec.RegRef} (hl : ar.Lawful) (c : Core) (R : Regs
   unfold writePreDec'
   rw [run_bind, run_modifyRegs, except_ok_bind, snd_mk, run_bind, run_getRegs, except_ok_bind, fst_mk, snd_mk]
   show (dataWrite (ar.get (ar.set R (ar.get R - 1))) v).run { c with regs := ar.set R (ar.get R - 1) } = _
-  rw [hl.get_set, dataWrite_run, busWrite_regs]
+  rw [hl.get_set, dataWrite_run9, busWrite_regs]
   cases busWrite c (ar.get R - 1) v <;> rfl
 
 theorem readPostInc'_at {ar : Exec.RegRef} (c : Core) (R : Regs) :
@@ -104,7 +104,7 @@ theorem readPostInc'_at {ar : Exec.RegRef} (c : Core) (R : Regs) :
   unfold readPostInc'
   rw [run_bind, run_getRegs, except_ok_bind, fst_mk, snd_mk, run_bind, run_modifyRegs, except_ok_bind, snd_mk]
   show (dataRead (ar.get R)).run { c with regs := ar.set R (ar.get R + 1) } = _
-  rw [dataRead_run, busRead_regs]
+  rw [dataRead_run9, busRead_regs]
 
 /-! ## `StoreBlockRepeat` -/
 
